@@ -163,6 +163,8 @@ static const FKind FKINDS[] = {
   {"UCH", "0=off;1=on", "values"}, {"BI0:2", "0=a;1=b;2=c", "values"},
   {"UCH", "=5", "constant"}, {"STR:2", "==ab", "constant"},
   {"tt", "", "template"}, {"ts", "", "template"}, {"tt", "10", "template"},
+  // weekday types carrying their OWN value list (localized names, a partial list) instead of the implied Mon..Sun
+  {"BDY", "0=Mo;1=Di;2=Mi;3=Do;4=Fr;5=Sa;6=So", "values"}, {"HDY", "1=workday;6=saturday;7=sunday", "values"},
   // ---- sweep 3 only: references to templates with a divisor, with a further divisor (product a power of ten
   //      or not, positive and reciprocal), template sets with divisor, a value list template as is ...
   {"tenth", "", "tref"}, {"tenth", "10", "tref"}, {"tenth", "3", "tref"}, {"tenth", "100", "tref"},
@@ -182,8 +184,8 @@ static const FKind FKINDS[] = {
   {"D2C", "10", "direct"}, {"D2C", "100", "direct"},
 };
 static const size_t NFK_ALL = sizeof(FKINDS) / sizeof(FKINDS[0]);
-static const size_t NFK = 18;        // kinds of sweeps 1 and 2
-static const size_t NFK_DIV0 = 18;   // first kind of sweep 3
+static const size_t NFK = 20;        // kinds of sweeps 1 and 2
+static const size_t NFK_DIV0 = 20;   // first kind of sweep 3
 static const char* MKINDS[] = {"r", "r1", "r5", "r9", "w", "u", "uw", "r2", "r3", "r4", "r6", "r7", "r8"};
 static const size_t NMK_QUICK = 7, NMK = 13;
 struct Addr { const char* qq; const char* zz; };
